@@ -230,6 +230,34 @@ def quant_noise(rng, sid, k, n):
     return Script(sid, ops, {"module": "quant", "family": "noise", "k": k})
 
 
+def quant_edit_roundtrip(rng, sid):
+    """convert, edit the scale so that the reported note is forbidden and (maybe) allowed again
+    before the next conversion, then convert an input inside the hysteresis band of that note"""
+    n = rng.randrange(0, 121)
+    v = n / 12.0 + rng.uniform(0.01, 0.07)
+    ops = ["quant.new"]
+    if rng.random() < 0.4:
+        keep = {n % 12, (n + rng.randrange(1, 12)) % 12}
+        ops.append("forbid " + ",".join(str(k) for k in range(12) if k not in keep))
+    ops.append("conv " + fhex(v))
+    pc = n % 12
+    others = [str(rng.randrange(12)) for _ in range(rng.randrange(0, 3))]
+    kind = rng.random()
+    if kind < 0.5:
+        ops.append("forbid " + ",".join(others + [str(pc)] if rng.random() < 0.5 else [str(pc)] + others))
+        ops.append("allow " + ",".join([str(pc)] + others))
+    elif kind < 0.75:
+        ops.append("forbid " + str(pc))
+    else:
+        ops.append("allow " + str(pc))
+        ops.append("forbid " + ",".join(others) if others else "forbid -")
+    for _ in range(rng.randrange(1, 4)):
+        band = rng.choice([n / 12.0 - rng.uniform(0.0005, 0.008), (n + 1) / 12.0 + rng.uniform(0.0, 0.008),
+                           n / 12.0 + rng.uniform(0.0, 0.083)])
+        ops.append("conv " + fhex(band))
+    return Script(sid, ops, {"module": "quant", "family": "edit-roundtrip"})
+
+
 def quant_scripts(rng, n_hist, n_masks, n_ramps):
     res = []
     for i in range(n_hist):
@@ -244,6 +272,8 @@ def quant_scripts(rng, n_hist, n_masks, n_ramps):
             base = octv + n / 12.0
             volts += [base, base + rng.choice([1e-6, -1e-6, 0.0416, 0.0417, 0.08, -0.04])]
         res += quant_fresh(rng, "q-f%d" % mi, m, volts)
+    for i in range(max(n_hist // 2, 20)):
+        res.append(quant_edit_roundtrip(rng, "q-e%d" % i))
     for i in range(n_ramps):
         res.append(quant_ramp(rng, "q-r%d" % i, rng.choice([4095, 4095, rng.randrange(1, 4096)]), rng.randrange(10, 80)))
         res.append(quant_noise(rng, "q-n%d" % i, rng.randrange(1, 121), rng.randrange(5, 40)))
@@ -337,7 +367,9 @@ def lfo_script(rng, sid, n):
             ops.append("freq " + hx(min(f, fs)))
         elif r < 0.14:
             p = rng.choice([0.0, 0.25, 0.5, 0.75, 0.999999, 1.0, 1.25, -0.25, -1.25, 123.456, -7.7, 1e-8, 16777216.5,
-                            1e20, -1e20, rng.uniform(-3, 3), rng.uniform(0, 1)])
+                            1e20, -1e20, rng.uniform(-3, 3), rng.uniform(0, 1),
+                            from_bits(0x3f7fffff), -from_bits(0x3f7fffff), from_bits(0x3f7ffffe), 1.9999999, 3.9999998,
+                            from_bits(0x3effffff), from_bits(0x3f000001), 5.960464477539063e-08])
             ops.append("phase " + hx(p))
         elif r < 0.16:
             ops.append("reset")
@@ -368,8 +400,19 @@ def lfo_extreme(rng, sid):
     return Script(sid, ops, {"module": "lfo", "family": "extreme"})
 
 
+def lfo_phase_edges(sid):
+    """set_phase at the representable values around every integer / half, read immediately"""
+    ops = ["lfo.new " + hx(1000.0), "freq " + hx(1.0)]
+    for b in (0x3f7fffff, 0x3f7ffffe, 0x3f800000, 0x3f800001, 0x3effffff, 0x3f000000, 0x3f000001, 0x3fffffff,
+              0xbf7fffff, 0x33800000, 0x00000001, 0x407fffff, 0x4b7fffff, 0x4affffff):
+        ops.append("phase %08x" % b)
+        ops.append("tick")
+    return Script(sid, ops, {"module": "lfo", "family": "phase-edges", "fs": 1000.0})
+
+
 def lfo_scripts(rng, n_hist, n_walk, n_ext):
     res = [lfo_script(rng, "lfo-h%d" % i, rng.randrange(50, 600)) for i in range(n_hist)]
+    res.append(lfo_phase_edges("lfo-edges"))
     for i in range(n_walk):
         k = rng.randrange(1024)
         start = rng.choice([1.0 - 40 / 16777216.0, k / 1024.0 - 30 / 16777216.0 + (1.0 if k == 0 else 0.0), 0.25 - 2e-6, 0.75 - 2e-6, 0.5 - 2e-6,
@@ -445,6 +488,33 @@ def adsr_slow(rng, sid):
     return Script(sid, ops, {"module": "adsr", "family": "slow", "fs": fs})
 
 
+def adsr_sustain_change(rng, sid):
+    """reach sustain quickly, change the sustain level while sustaining, tick, release"""
+    fs = rng.choice([1000.0, 48000.0, 100.0, 44100.0])
+    t = max(0.001, 3.0 / fs)
+    ops = ["adsr.new " + hx(fs), "att " + hx(t), "dec " + hx(t), "rel " + hx(rng.choice([t, 0.01])),
+           "sus " + hx(rng.choice([0.25, 0.5, 1.0, 0.0])), "gon"]
+    ops += ["tick"] * (2 * int(t * fs) + 8)
+    for _ in range(rng.randrange(1, 4)):
+        ops.append("sus " + hx(rng.choice([0.0, 1.0, 0.75, 0.1, rng.random()])))
+        ops += ["tick"] * rng.randrange(1, 4)
+    ops.append("goff")
+    ops += ["tick"] * (int(0.01 * fs) + 8)
+    return Script(sid, ops, {"module": "adsr", "family": "sustain-change", "fs": fs})
+
+
+def adsr_slowest(rng, sid):
+    """the slowest phases the clamps allow, at the highest sample rates: the per-tick increment must
+    stay positive or the envelope hangs"""
+    fs = rng.choice([192000.0, 192000.0, 176400.0, 150000.0])
+    big = rng.choice([1e9, 100.0, 25.0, float("inf"), 3.0e38])
+    ops = ["adsr.new " + hx(fs), "att " + fhex(big), "dec " + fhex(big), "rel " + fhex(big), "sus " + hx(0.5), "gon"]
+    ops += ["tick"] * 40
+    ops.append("goff")
+    ops += ["tick"] * 40
+    return Script(sid, ops, {"module": "adsr", "family": "slowest", "fs": fs})
+
+
 def adsr_scripts(rng, n_hist, n_phase, n_ext):
     res = [adsr_script(rng, "adsr-h%d" % i, rng.randrange(100, 700)) for i in range(n_hist)]
     configs = [(1000.0, 0.1), (512.0, 2.0 ** -9), (999.0, 0.001), (100.0, 0.001), (1000.0, 0.001), (48000.0, 0.001),
@@ -458,6 +528,10 @@ def adsr_scripts(rng, n_hist, n_phase, n_ext):
             t = min(max(t, 0.001), 2000.0 / fs)
         res.append(adsr_phase(rng, "adsr-p%d" % i, fs, t, sus=rng.choice([0.5, 0.0, 1.0, rng.random()])))
     res.append(adsr_slow(rng, "adsr-slow0"))
+    for i in range(max(n_hist // 5, 4)):
+        res.append(adsr_sustain_change(rng, "adsr-sc%d" % i))
+    for i in range(2):
+        res.append(adsr_slowest(rng, "adsr-slowest%d" % i))
     for i in range(n_ext):
         res.append(adsr_script(rng, "adsr-x%d" % i, rng.randrange(50, 300), legal=False))
     return res
